@@ -298,8 +298,21 @@ func Shapes(thorough bool) []*big.Int {
 			out = append(out, ShapesLen(L)...)
 		}
 	} else {
+		inQuick := map[int]bool{}
 		for _, L := range quickLens {
 			out = append(out, ShapesLen(L)...)
+			inQuick[L] = true
+		}
+		// every other length still contributes its power of ten, all-nines and 10^(L-1)+1 (digit-count and
+		// power-table boundaries exist at every length)
+		for L := 1; L <= 35; L++ {
+			if !inQuick[L] {
+				s := ShapesLen(L)
+				out = append(out, s[0], s[1])
+				if len(s) > 2 {
+					out = append(out, s[2])
+				}
+			}
 		}
 	}
 	out = append(out, SeamShapes()...)
